@@ -18,6 +18,7 @@ type EvalCtx struct {
 	old   *heapSnap // heap snapshot for old(); nil => initial versions
 	inOld bool
 	depth int
+	prev  map[string]Term // values at the previous loop head (for step clauses)
 	facts *[]string // side facts (heap closedness) collected during evaluation of ground terms
 }
 
@@ -504,10 +505,12 @@ func (c *EvalCtx) evalIndex(x, i Term, e Expr) Term {
 	if x.T != nil {
 		if mt, ok := x.T.Underlying().(*types.Map); ok {
 			dom, val, _, _, vs := c.mapArrays(mt)
-			t := mkTerm(sel(sel(val, x.S), i.S), vs, mt.Elem())
+			raw := mkTerm(sel(sel(val, x.S), i.S), vs, mt.Elem())
 			if !strings.Contains(i.S, "q!") {
-				c.closedFact(x.S, sel(sel(dom, x.S), i.S), t)
+				c.closedFact(x.S, sel(sel(dom, x.S), i.S), raw)
 			}
+			// Go semantics: a missing key yields the zero value
+			t := mkTerm("(ite "+sel(sel(dom, x.S), i.S)+" "+raw.S+" "+zeroOf(vs)+")", vs, mt.Elem())
 			return t
 		}
 	}
@@ -610,6 +613,16 @@ func (c *EvalCtx) evalCall(e *ECall) Term {
 		n := *c
 		n.inOld = true
 		return n.eval(e.Args[0])
+	case "prev":
+		id, ok := e.Args[0].(*EIdent)
+		if !ok || c.prev == nil {
+			fail("prev(x) needs an identifier and is only available in loop step clauses")
+		}
+		t, ok := c.prev[id.Name]
+		if !ok {
+			fail("prev(%s): not a loop variable", id.Name)
+		}
+		return t
 	case "len":
 		x := arg(0)
 		if x.T != nil {
